@@ -35,6 +35,8 @@ type Engine struct {
 	measures     map[string][]*measure
 	keyPrefixes  map[string]int
 	specErrors   []string
+	cellVars     map[string]bool
+	kvTypes      map[string]string // database key format -> Go type its values are read and written with
 	siteOrds     map[*ssa.Function]map[ssa.Instruction]string
 	constGlobals map[*ssa.Global]*ssa.Const
 	loadSecs     float64
@@ -65,7 +67,7 @@ const vipnodeMod = "github.com/vipnode/vipnode/v2"
 
 func NewEngine(repoDir, assumedDir string, patterns []string) (*Engine, error) {
 	t0 := time.Now()
-	e := &Engine{repoDir: repoDir, modPath: vipnodeMod, st: NewSortTable(),
+	e := &Engine{repoDir: repoDir, modPath: vipnodeMod, st: NewSortTable(), kvTypes: map[string]string{}, cellVars: map[string]bool{},
 		loops: map[*ssa.Function]map[*ssa.BasicBlock]*loopInfo{}, dbgRefs: map[*ssa.Function]map[string][]*ssa.DebugRef{},
 		globalIDs: map[*ssa.Global]int{}, strLits: map[string]string{}, typeTags: map[string]int{}, measures: map[string][]*measure{}, keyPrefixes: map[string]int{}, siteOrds: map[*ssa.Function]map[ssa.Instruction]string{}, constGlobals: map[*ssa.Global]*ssa.Const{}}
 	absRepo, _ := filepath.Abs(repoDir)
@@ -229,6 +231,7 @@ func (e *Engine) Verify(fn *ssa.Function, ct *Contract, props []string, opt Opti
 	st.assume(Bin(sortBool, ">=", st.alloc, IntLit(0)))
 	vc.declare("clock_0", sortInt)
 	st.clock = T(sortInt, "clock_0")
+	st.assume(Bin(sortBool, ">=", st.clock, IntLit(0))) // wall-clock readings are nanoseconds since 1970: not negative
 	f := &Frame{fn: fn, regs: map[ssa.Value]Value{}, cut: map[*ssa.BasicBlock]bool{}, iters: map[ssa.Value]*iterState{}, contract: ct}
 	for i, p := range fn.Params {
 		s := e.st.SortOf(p.Type())
@@ -239,6 +242,12 @@ func (e *Engine) Verify(fn *ssa.Function, ct *Contract, props []string, opt Opti
 		vc.declare(name, s)
 		v := T(s, name)
 		vc.typeFacts(st, v, p.Type())
+		if b, ok := p.Type().Underlying().(*types.Basic); ok && s.Kind == KInt {
+			// the machine range of an integer parameter (arithmetic on it is still mathematical)
+			if lo, hi, ok := intRange(b.Kind()); ok {
+				st.assume(And(Bin(sortBool, ">=", v, T(sortInt, lo)), Bin(sortBool, "<=", v, T(sortInt, hi))))
+			}
+		}
 		f.regs[p] = v
 		switch s.Kind {
 		case KInt, KBool, KStr, KSlice, KIface, KBig:
@@ -469,4 +478,27 @@ func candidateModel(workdir string, o *Obligation, seed int) map[string]string {
 		return nil
 	}
 	return parseModel(out)
+}
+
+// intRange: the value range of a sized integer kind, as SMT numerals.
+func intRange(k types.BasicKind) (lo, hi string, ok bool) {
+	switch k {
+	case types.Int, types.Int64:
+		return "(- 9223372036854775808)", "9223372036854775807", true
+	case types.Int32:
+		return "(- 2147483648)", "2147483647", true
+	case types.Int16:
+		return "(- 32768)", "32767", true
+	case types.Int8:
+		return "(- 128)", "127", true
+	case types.Uint, types.Uint64, types.Uintptr:
+		return "0", "18446744073709551615", true
+	case types.Uint32:
+		return "0", "4294967295", true
+	case types.Uint16:
+		return "0", "65535", true
+	case types.Uint8:
+		return "0", "255", true
+	}
+	return "", "", false
 }
